@@ -1,9 +1,11 @@
 mod arena;
+mod c14;
 mod c17;
 mod canon;
 mod evidence;
 mod grammar;
 mod hashseed;
+mod http_mc;
 mod nbh_mc;
 mod oracles;
 mod pool;
@@ -23,6 +25,7 @@ fn worker_handle(task: &Value) -> Value {
     match task.get("kind").and_then(|k| k.as_str()) {
         Some("solve") => sweep::worker_solve(task),
         Some("load") => sweep::worker_load(task),
+        Some("flow") => sweep::worker_flow(task),
         other => json!({"status": "machinery", "msg": format!("unknown task kind {:?}", other)}),
     }
 }
@@ -52,6 +55,7 @@ fn sweep_spec(prop: &str) -> Option<SweepSpec<'static>> {
             s
         }
         "C16" => base("C16", "solve", "the transition optimiser changed at least one rotation cycle (otherwise discarding its result is unobservable)."),
+        "C14" => base("C14", "flow", "in scope (depot totals do not couple the types) and the start solution has a tour with two activities or at least two vehicles of a type."),
         "C17" => base("C17", "load", "the instance contains a tie: an activity ending exactly when another starts."),
         _ => return None,
     })
@@ -60,6 +64,9 @@ fn sweep_spec(prop: &str) -> Option<SweepSpec<'static>> {
 fn check(prop: &str, tier: &str) -> i32 {
     if prop == "C06" {
         return c06(tier);
+    }
+    if prop == "C18" {
+        return http_mc::check(tier);
     }
     if prop == "C11" {
         pool::install_panic_recorder_thread();
@@ -144,6 +151,7 @@ fn main() {
                 let path = args.get(4).cloned().unwrap_or_default();
                 let engine = std::fs::read_to_string(&path).ok().and_then(|t| serde_json::from_str::<Value>(&t).ok()).and_then(|v| v.get("engine").and_then(|e| e.as_str()).map(|s| s.to_string()));
                 match engine.as_deref() {
+                    Some("http-mc") => http_mc::replay(&path),
                     Some("nbh-mc") => {
                         pool::install_panic_recorder_thread();
                         nbh_mc::replay(&path)
@@ -172,6 +180,33 @@ fn main() {
             // print the input JSON of an instance code
             let inst = grammar::Inst::from_code(&args[2]).expect("bad code");
             println!("{}", serde_json::to_string_pretty(&inst.to_json()).unwrap());
+        }
+        Some("flow") => {
+            // debug: print the min-cost-flow start solution of an instance code under a hash seed
+            evidence::init_stdout();
+            let inst = grammar::Inst::from_code(&args[2]).expect("bad code");
+            let seed: u64 = args.get(3).and_then(|s| s.parse().ok()).unwrap_or(1);
+            let input = inst.to_json();
+            let r = pool::run_isolated(seed, move || {
+                let a = arena::Arena::from_input_no_inits("dbg", "", input);
+                let start = solver::min_cost_flow_solver::MinCostFlowSolver::initialize(a.nw.clone()).solve();
+                let mut lines = vec![];
+                for v in start.vehicles_iter_all() {
+                    let t = start.tour_of(v).unwrap();
+                    lines.push(format!("{}: {} costs {}", v, t.all_nodes_iter().map(|n| a.nw.node(n).id().to_string()).collect::<Vec<_>>().join(" - "), t.costs()));
+                }
+                let (viol, _) = c14::check(&a, &start);
+                (lines, viol)
+            });
+            match r {
+                Ok((lines, viol)) => {
+                    for l in lines {
+                        say!("{}", l);
+                    }
+                    say!("{:?}", viol);
+                }
+                Err(e) => say!("panic {:?}", e),
+            }
         }
         Some("count") => {
             for t in ["quick", "thorough"] {
